@@ -91,7 +91,8 @@ type world struct {
 	evars                     map[string]variant // eACL variants (sig,pub,token)
 	accName                   map[string]string  // hex(script hash BE) -> model account name
 	U                         *big.Int
-	bad                       []string
+	bad                       []string // observations that could not be mapped to model values
+	badAmt                    []string // amounts that are not multiples of the scale / out of range
 	stranger                  neotest.Signer
 	seed                      int64
 	step                      int
@@ -240,12 +241,12 @@ func (w *world) amount(m int64) *big.Int { return new(big.Int).Mul(big.NewInt(m)
 
 func (w *world) unscale(b *big.Int, what string) int64 {
 	if b == nil {
-		w.bad = append(w.bad, what+"=nil")
+		w.badAmt = append(w.badAmt, what+"=nil")
 		return 0
 	}
 	q, r := new(big.Int).QuoRem(b, w.U, new(big.Int))
 	if r.Sign() != 0 || !q.IsInt64() || q.Int64() > 1<<30 || q.Int64() < -(1<<30) {
-		w.bad = append(w.bad, what+"="+b.String())
+		w.badAmt = append(w.badAmt, what+"="+b.String())
 		return 0
 	}
 	return q.Int64()
@@ -658,7 +659,7 @@ func (w *world) txtName(data []byte) string {
 
 func resetRec(idx int, sc *Scenario, obs map[string]any) chain.Rec {
 	return chain.Rec{"t": idx, "act": "reset", "S": []string{}, "c": "nil", "v": "nil", "nm": "nil", "meta": false, "o": "nil", "k": "nil",
-		"amt": 0, "res": "HALT", "ret": "null", "ntf": []any{}, "xfer": []any{}, "obs": obs, "bad": []string{},
+		"amt": 0, "res": "HALT", "ret": "null", "ntf": []any{}, "xfer": []any{}, "obs": obs, "bad": []string{}, "badAmt": []string{},
 		"n": sc.N, "scale": sc.Scale, "src": sc.Src}
 }
 
@@ -666,19 +667,18 @@ func runScenario(t *testing.T, rec *chain.Recorder, idx int, sc *Scenario, seed 
 	w := newWorld(t, sc.N, sc.Scale, seed+int64(idx))
 	obs := w.observe()
 	require.Empty(t, w.bad, "initial observation")
+	require.Empty(t, w.badAmt, "initial observation")
 	rec.Emit(resetRec(idx, sc, obs))
 	for _, st := range sc.Steps {
 		if st.Act == "put" && st.C == "c0" {
 			continue // c0 is the never-used id
 		}
-		w.bad = nil
+		w.bad, w.badAmt = []string{}, []string{}
 		r := w.exec(st)
 		obs = w.observe()
 		r["obs"] = obs
-		if w.bad == nil {
-			w.bad = []string{}
-		}
 		r["bad"] = w.bad
+		r["badAmt"] = w.badAmt
 		r["t"] = idx
 		rec.Emit(r)
 	}
